@@ -295,9 +295,18 @@ Fixpoint replace_first (ms : list Move) (x : Move) (lastm : Move) : option (list
 Definition swap_remove_move (ms : list Move) (x : Move) : list Move :=
   match replace_first ms x (last ms x) with Some r => r | None => ms end.
 
+(* [back] undoes the quiet move [forth]: the same piece returns to its square (fix a0a0e3f: the filter fires only
+   when the last four plies were two quiet moves and their reversals, i.e. the position of four plies ago is back) *)
+Definition is_reversal (forth back : Move) : bool :=
+  match forth, back with
+  | Normal p1 s1 e1 None, Normal p2 s2 e2 None => piece_eqb p1 p2 && pos_eqb s1 e2 && pos_eqb e1 s2
+  | _, _ => false
+  end.
+
 Definition repetition_filter (g : game) (ms : list Move) : list Move :=
   match g_moves g with
-  | m1 :: _ :: _ :: m4 :: m5 :: _ => if move_eqb m1 m5 then swap_remove_move ms m4 else ms
+  | m1 :: m2 :: m3 :: m4 :: m5 :: _ =>
+      if move_eqb m1 m5 && is_reversal m4 m2 && is_reversal m5 m3 then swap_remove_move ms m4 else ms
   | _ => ms
   end.
 
